@@ -208,6 +208,7 @@ def build(reg, src):
     reg.replays.append((r'eval_sys_fn_index', rp.replay_index_order))
     reg.replays.append((r'#db\.', rp.replay_db_view))                # sub-verification batteries: run proactively by the thorough tier
     reg.replays.append((r'#merge\.', rp.replay_indexed_commit))
+    reg.replays.append((r'write\(idx_cols\)', rp.replay_index_change_pending))
     reg.replays.append((r'.', rp.replay_table))
 
 
@@ -244,6 +245,11 @@ def configure(eng):
             if fn not in ('Table.commit', 'Table.__init__'):
                 e.oblige(f"{e.cur_key}#write(_df).buffer-empty@{e.site_ordinal('dfw', node)}", st,
                          VBool(z3.Length(st.field(o, 'buffer').t) == 0), kind='typestate')
+        if attr == 'idx_cols' and e.cur_key.split('::')[1] != 'Table.__init__':
+            # rows are buffered under the index rule in force when they were inserted (upsert by key / plain append); commit merges
+            # them under the rule in force when it runs: the rule may only change while nothing is pending
+            e.oblige(f"{e.cur_key}#write(idx_cols).buffer-empty@{e.site_ordinal('idxw', node)}", st,
+                     VBool(z3.Length(st.field(o, 'buffer').t) == 0), kind='typestate')
         return False
     eng.hooks['setattr:Table'] = setattr_table
 
